@@ -86,3 +86,42 @@ fn k_dt_all_variants_listed() {
     kani::assume(i < ALL.len() && j < ALL.len() && i != j);
     assert!(ALL[i] != ALL[j]);
 }
+
+// ---- K-LIM: bit-precise facts about `check_limits_valid` (property C12: "clearly inside" is accepted, a range that was not
+// evaluated is never an error). Loop-free, all four f64 inputs fully symbolic (minus NaN / infinities where stated) => COMPLETE.
+use super::check_limits_valid;
+
+/// declared limits inside the calculated range (no tolerance needed) are always accepted
+#[kani::proof]
+fn k_lim_inside_is_accepted() {
+    let e0: f64 = kani::any();
+    let e1: f64 = kani::any();
+    let c0: f64 = kani::any();
+    let c1: f64 = kani::any();
+    kani::assume(e0.is_finite() && e1.is_finite() && c0.is_finite() && c1.is_finite());
+    kani::assume(e0 >= c0 && e1 <= c1);
+    assert!(check_limits_valid((e0, e1), (c0, c1)));
+    kani::cover!(e0 == c0 && e1 == c1);
+}
+
+/// a conversion that is not evaluated yields (f64::MIN, f64::MAX): every finite declaration passes
+#[kani::proof]
+fn k_lim_unevaluated_never_errors() {
+    let e0: f64 = kani::any();
+    let e1: f64 = kani::any();
+    kani::assume(e0.is_finite() && e1.is_finite());
+    assert!(check_limits_valid((e0, e1), (f64::MIN, f64::MAX)));
+}
+
+/// a declared lower limit below the calculated one by more than the tolerance is rejected (positive calculated lower limit,
+/// declared at most half of it: far outside the 1e-6 tolerance)
+#[kani::proof]
+fn k_lim_clearly_below_is_rejected() {
+    let e0: f64 = kani::any();
+    let e1: f64 = kani::any();
+    let c0: f64 = kani::any();
+    let c1: f64 = kani::any();
+    kani::assume(e0.is_finite() && e1.is_finite() && c0.is_finite() && c1.is_finite());
+    kani::assume(c0 >= 1.0 && c0 <= 1.0e300 && e0 >= 0.0 && e0 <= c0 / 2.0);
+    assert!(!check_limits_valid((e0, e1), (c0, c1)));
+}
